@@ -37,6 +37,12 @@ try/except : `try: ... except (C1, C2): ...` (no `else` / `finally` / `as`) = Le
              Lean rolls local variables assigned in the `try` body back when it raises, CPython does not: rejected
              unless every such variable is assigned by the last statement of the body that can raise (or is not
              read again).
+attr store : `x.a = v` = `symSetAttr` (an event when `x` is opaque; later reads do not see the store, on either side of
+             the comparison).
+nested     : a target may be a NESTED definition: the path `outer.Class.method` / `outer.name[callee]` (the nested def
+             `name` whose body calls `callee`); its parameters are the variables it captures from the enclosing functions
+             (sorted, CPython's `co_freevars`) followed by its own.  The checks run the REAL code object of the nested
+             definition (taken from the constants of the enclosing function) closed over mock values.
 defaults   : parameter defaults are accepted and ignored (the driver passes every argument; the defaults themselves
              are pinned by `Generated/Facts.lean`).
 
@@ -67,6 +73,10 @@ TARGETS = [
     ('multilevel_coarse_grid_solver', 'pyamg/multilevel.py', 'coarse_grid_solver', 1, False),
     ('multilevel_solve', 'pyamg/multilevel.py', 'MultilevelSolver.solve', 11, True),
     ('blackbox_solver_configuration', 'pyamg/blackbox.py', 'solver_configuration', 3, True),
+    # nested definitions of coarse_grid_solver: parameters = the captured variables (sorted) followed by their own
+    ('multilevel_cgs_call', 'pyamg/multilevel.py', 'coarse_grid_solver.GenericSolver.__call__', 4, True),
+    ('multilevel_cgs_solve_krylov', 'pyamg/multilevel.py', 'coarse_grid_solver.solve[set_tol]', 6, True),
+    ('multilevel_cgs_solve_relax', 'pyamg/multilevel.py', 'coarse_grid_solver.solve[getattr]', 5, True),
 ]
 
 OPAQUE_BUILTINS = {'print'}
@@ -224,19 +234,44 @@ class Module2(P.Module):
                 self.globals.add(node.name)
 
     def find2(self, qualname):
-        """(node, name of the class the function is a method of or None)"""
+        """(node, name of the innermost class the function is a method of or None, enclosing function nodes).  A path
+        component is `name` or `name[callee]` (the definition of that name whose body calls `callee`); definitions are
+        looked up anywhere inside the enclosing scope (a nested def may sit inside an `if`)"""
         body = self.tree.body
-        node, cls = None, None
-        for p in qualname.split('.'):
-            node = next((n for n in body if isinstance(n, (ast.FunctionDef, ast.ClassDef)) and n.name == p), None)
-            if node is None:
-                return None, None
+        node, cls, outers = None, None, []
+        for part in qualname.split('.'):
+            m = re.fullmatch(r'(\w+)(?:\[([\w.<>]+)\])?', part)
+            if m is None:
+                return None, None, []
+            name, sel = m.groups()
+            cands = [n for n in scope_walk(body) if isinstance(n, (ast.FunctionDef, ast.ClassDef)) and n.name == name]
+            if sel is not None:
+                cands = [n for n in cands if isinstance(n, ast.FunctionDef) and sel in calls_summary(n)]
+            if len(cands) != 1:
+                return None, None, []
+            if node is not None and isinstance(node, ast.FunctionDef):
+                outers.append(node)
+            node = cands[0]
             if isinstance(node, ast.ClassDef):
                 cls = node.name
             body = node.body
         if not isinstance(node, ast.FunctionDef):
-            return None, None
-        return node, cls
+            return None, None, []
+        return node, cls, outers
+
+
+def with_captured(node, outers):
+    """a copy of the nested def `node` whose parameters are the variables it captures from the enclosing functions
+    (sorted, CPython's co_freevars) followed by its own"""
+    scope = set()
+    for o in outers:
+        scope |= bound_in(o)
+    cap = sorted(free_names(node) & scope)
+    new = ast.parse(ast.unparse(node)).body[0]
+    new.args.args = [ast.arg(arg=c) for c in cap] + new.args.args
+    new.args.defaults = []
+    ast.fix_missing_locations(new)
+    return new, cap
 
 
 class Fn2(P.FnTranslator):
@@ -541,7 +576,15 @@ class Fn2(P.FnTranslator):
 
     def assign_target(self, target, term, env, ind, defined):
         if isinstance(target, ast.Attribute):
-            raise Unsupported('assignment to an attribute')
+            if not self.effects:
+                raise Unsupported('assignment to an attribute in a function translated without effects')
+            x, _ = self.val(target.value, env)
+            pre = []
+            if '←' in x and '←' in term:
+                v = self.fresh('rhs')
+                pre = [f'{ind}let {v} := {term}']
+                term = v
+            return pre + [f'{ind}symSetAttr {x} {lstr(self.mangle(target.attr))} {term}']
         if self.effects and isinstance(target, ast.Subscript) and isinstance(target.value, ast.Name) \
                 and not isinstance(target.slice, ast.Tuple):
             x = target.value.id
@@ -646,6 +689,20 @@ class Fn2(P.FnTranslator):
             else:
                 term = f'(← symBin {lstr(op)} {cur} {av})'
             return [f'{ind}let {av} := {v}'] + self.assign_name(st.target.id, term, ind), defined
+        if isinstance(st, ast.While):
+            # as in py2lean.py, but the fuel is a `Std.Range` (consumed lazily: the kernel can run it)
+            if st.orelse:
+                raise Unsupported('while ... else')
+            inner = ind + '  '
+            c, _ = self.boolean(st.test, dict(env, loop=True))
+            k = self.fresh('fuel')
+            out = [f'{ind}for {k} in [0:{P.WHILE_FUEL + 1}] do',
+                   f'{inner}if !{c} then',
+                   f'{inner}  break',
+                   f'{inner}if {k} == {P.WHILE_FUEL} then',
+                   f'{inner}  throw (PyErr.mk "FuelExhausted" "while loop")']
+            body, _ = self.block(st.body, dict(env, loop=True), inner)
+            return out[:1] + self.loop_decls(st.body, inner) + out[1:] + body, defined
         return super().stmt(st, env, ind)
 
     # ---------------------------------------------------------------- whole function
@@ -745,19 +802,23 @@ class Generator2:
             self.sentinel(lean, arity, effects, f'cannot parse {path}: {type(ex).__name__}', doc)
             self.order.append(lean)
             return
-        node, cls = module.find2(qual)
+        node, cls, outers = module.find2(qual)
         if node is None:
-            self.sentinel(lean, arity, effects, f'function {qual} not found in {path}', doc)
+            self.sentinel(lean, arity, effects, f'function {qual} not found in {path} (or not unique)', doc)
             self.order.append(lean)
             return
         n_before = len(self.order)
         try:
+            cap = []
+            if outers:
+                node, cap = with_captured(node, outers)
+                doc += f' -- a nested definition; leading parameters = the captured variables {cap}'
             tr = Fn2(self, module, node, lean, effects, cls)
             text = tr.translate()
             if len(tr.params) != arity:
                 raise Unsupported(f'takes {len(tr.params)} parameters, {arity} expected')
             self.defs[lean] = dict(text=text, arity=arity, ok=True, reason='', doc=doc, effects=effects, params=tr.params,
-                                   free_globals=sorted(tr.free_globals), table=True)
+                                   free_globals=sorted(tr.free_globals), table=True, captured=cap)
         except Unsupported as ex:
             for h in self.order[n_before:]:
                 self.defs.pop(h, None)
@@ -825,7 +886,10 @@ def build():
 def info():
     """{lean name: dict(ok, reason, params, free_globals, effects)} of the targets, from the working tree"""
     g = build()
-    return {n: {k: g.defs[n][k] for k in ('ok', 'reason', 'params', 'free_globals', 'effects')} for n, *_ in TARGETS}
+    out = {n: {k: g.defs[n].get(k) for k in ('ok', 'reason', 'params', 'free_globals', 'effects', 'captured')} for n, *_ in TARGETS}
+    for n, path, qual, *_ in TARGETS:
+        out[n].update(path=path, qual=qual)
+    return out
 
 
 def _compiles(text):
